@@ -120,6 +120,10 @@ def run(ctx):
     R.check("C16-D1c record placement", wrt.args[0] == hexobj and wrt.args[1] == P("storage_output_file"), "output file",
             mod=top.module, node=wrt.node, function=fq, expected="write_hex_file(storage_output_file) on the record's hex object",
             found=repr(wrt)[:200])
+    fresh = isinstance(hexobj, App) and hexobj.op.startswith("call:") and hexobj.op.endswith("IntelHex") and not any(
+        not (isinstance(a_, Const) and isinstance(a_.v, tuple) and a_.v[:1] == ("site",)) and not (isinstance(a_, App) and a_.op == "tuple") for a_ in hexobj.args)
+    R.check("C16-D1c record placement", fresh, "the record goes into an empty hex object created by this call", mod=top.module, node=fbt.node,
+            function=fq, expected="IntelHex() constructed inside the call", found=repr(hexobj)[:160])
     others = [e for e in all_effects(o.effects) if isinstance(e, App) and e.op in ("eff:call", "eff:setattr", "eff:store")
               and e.args and ((e.op == "eff:call" and isinstance(e.args[0], App) and e.args[0].op.startswith("meth:")
                                and e.args[0].args and e.args[0].args[0] == hexobj
